@@ -354,6 +354,26 @@ func main() {
 	// 8. gov EndBlocker: every call whose error is returned (an error returned by an end blocker halts the chain)
 	govHalts := govHalting(filepath.Join(repo, "x/gov/abci.go"))
 	govRecovers := govRecoverDirect(filepath.Join(repo, "x/gov/abci.go"))
+	// 9. fx-core's only BeginBlock code (x/evm/keeper/abci.go): which calls it makes
+	var evmBegin []string
+	{
+		bf, perr := parser.ParseFile(fset, filepath.Join(repo, "x/evm/keeper/abci.go"), nil, 0)
+		if perr != nil {
+			die("parse x/evm/keeper/abci.go: %v", perr)
+		}
+		for _, d := range bf.Decls {
+			fd, ok := d.(*ast.FuncDecl)
+			if !ok || fd.Body == nil {
+				continue
+			}
+			ast.Inspect(fd.Body, func(n ast.Node) bool {
+				if c, ok := n.(*ast.CallExpr); ok {
+					evmBegin = append(evmBegin, fd.Name.Name+":"+src(fset, c.Fun))
+				}
+				return true
+			})
+		}
+	}
 
 	// 5. the tail of gov Tally: divisions and early-return guards in source order
 	tallySteps, loopDivs := tallyTail(filepath.Join(repo, "x/gov/keeper/tally.go"))
@@ -396,6 +416,7 @@ func main() {
 	}
 	sb.WriteString("Definition gen_oset_writers : list (string * string) :=\n  [" + strings.Join(writers, ";\n   ") + "].\n")
 	sb.WriteString("Definition gen_gov_halting_calls : list (string * string) :=\n  [" + strings.Join(govHalts, ";\n   ") + "].\n")
+	sb.WriteString("Definition gen_evm_abci_calls : list string := " + q(evmBegin) + ".\n")
 	sb.WriteString(fmt.Sprintf("Definition gen_gov_safe_execute_recovers : bool := %v.\n", govRecovers))
 	sb.WriteString("Definition gen_oset_conditions : list (string * string) :=\n  [" + strings.Join(conds, ";\n   ") + "].\n")
 	if err := os.WriteFile(filepath.Join(out, "Gen_EndBlock.v"), []byte(sb.String()), 0o644); err != nil {
